@@ -458,6 +458,7 @@ type Clause struct {
 }
 
 type LoopSpec struct {
+	Owns    []Clause
 	Inv     []Clause
 	Hints   []Clause // "use" clauses: lemma instantiations assumed at the header after proof elsewhere
 	Unreach bool
@@ -846,6 +847,9 @@ func (cs *ContractSet) parseFile(path string) error {
 				ls.Inv = append(ls.Inv, Clause{Label: lab, E: e, Src: r3})
 			case "use":
 				ls.Hints = append(ls.Hints, Clause{E: e, Src: r3})
+			case "owns":
+				// the structure below this pointer is owned across iterations (part of the invariant)
+				ls.Owns = append(ls.Owns, Clause{E: e, Src: r3})
 			default:
 				return fail("unknown rangecall clause %q", k2)
 			}
